@@ -186,7 +186,7 @@ ConstructionOK ==
         /\ NodesOf(ch) \in CompsOf({n.id : n \in nodes}, Edges(RLinks))  \* each chromosome is one connected component
 
 (* lexicographic order on ids (what Python's sorted() does on these ASCII strings) *)
-Alphabet == "0123456789abcdefghijklmnopqrstuvwxyz"
+Alphabet == "0123456789ABCDEFGHIJKLMNOPQRSTUVWXYZabcdefghijklmnopqrstuvwxyz"      \* code-point order
 Ord(c) == CHOOSE k \in 1..Len(Alphabet) : SubSeq(Alphabet, k, k) = c
 RECURSIVE LexLess(_, _)
 LexLess(a, b) == IF Len(a) = 0 THEN Len(b) > 0
